@@ -6,8 +6,8 @@ From Ergo Require Import Common.Base Sched.Model Sched.CountFacts Sched.QueueFac
    or by registered name, Kill callers, self-sends, every schedule): restricted to the messages
    one sender sent in one priority class, the handled list is a subsequence of the sending
    order (refused or not-yet-handled messages are simply missing) ... *)
-Theorem C03_per_sender_fifo : forall sched named selfs initok others i b orig k,
-  let c0 := init_cfg named selfs initok others in
+Theorem C03_per_sender_fifo : forall sched named lim fb selfs initok others i b orig k,
+  let c0 := init_cfg named lim fb selfs initok others in
   nth_error (thr c0) i = Some (S_load b orig) -> k <= 3 -> NoDup (init_ids c0) ->
   let F := map mid (filter (fun m => Nat.eqb (qidx (mq m)) k) orig) in
   sublist (filter (fid F) (handled (sh (run sched c0)))) F.
@@ -16,8 +16,8 @@ Print Assumptions C03_per_sender_fifo.
 
 (* ... i.e. if x was handled before y and both are class-k messages of that sender, then the
    sender sent x before y. *)
-Theorem C03_per_sender_fifo_order : forall sched named selfs initok others i b orig k x y pre mid_ post,
-  let c0 := init_cfg named selfs initok others in
+Theorem C03_per_sender_fifo_order : forall sched named lim fb selfs initok others i b orig k x y pre mid_ post,
+  let c0 := init_cfg named lim fb selfs initok others in
   nth_error (thr c0) i = Some (S_load b orig) -> k <= 3 -> NoDup (init_ids c0) ->
   let F := map mid (filter (fun m => Nat.eqb (qidx (mq m)) k) orig) in
   handled (sh (run sched c0)) = pre ++ x :: mid_ ++ y :: post -> In x F -> In y F ->
@@ -64,7 +64,7 @@ Proof. exact expected_stable. Qed.
 Print Assumptions C03_expected_stable.
 
 Example C03_example :
-  let c0 := init_cfg false [] true [S_load false [mk_msg 1 2 (BOk 0); mk_msg 2 0 (BOk 0); mk_msg 3 2 (BOk 0)]] in
+  let c0 := init_cfg false 0 false [] true [S_load false [mk_msg 1 2 (BOk 0); mk_msg 2 0 (BOk 0); mk_msg 3 2 (BOk 0)]] in
   NoDup (init_ids c0) /\
   handled (sh (run (repeat 0 8 ++ repeat 2 20 ++ repeat 1 30 ++ repeat 3 60) c0)) = [2; 1; 3] /\
   next_message (mk_qs [] [(mk_msg 7 1 (BOk 0), true)] [(mk_msg 8 2 (BOk 0), true)] []) =
